@@ -60,7 +60,7 @@ def queries(tier):
           desc='format_duration integer fields (usecs %s): hours < 24, minutes < 60, leading field >= 1, usecs - (days,hours,minutes) in [0, 60 s)' % MAGN[mag],
           bounds='all usecs of the class')
     for mag in (0, 1, 2, 3):
-        q('dur_value_m%d' % mag, 'h_duration.c', {'MAG': mag, 'PREC': 1, 'NINT': 2, 'CHECK': 2}, 26, 900, flags=['--cvc5', '--slice-formula'], cost=300,
+        q('dur_value_m%d' % mag, 'h_duration.c', {'MAG': mag, 'PREC': 1, 'NINT': 2, 'CHECK': 2}, 26, 400, flags=['--cvc5', '--slice-formula'], cost=300,
           desc='the double handed to "%%.*lf" is exactly (double)(usecs - whole fields) / 1000000 (usecs %s); SMT back end cvc5 (floating-point theory)' % MAGN[mag],
           bounds='all usecs of the class')
     # ---- timeval ------------------------------------------------------------------------------------------------------------
